@@ -67,6 +67,7 @@ def _rules():
             lambda R, c, rid: c16.rule_f(R, c, rid),
             lambda R, c, rid: c16.rule_j(R, c, rid),
             lambda R, c, rid: accessors.blocks_cursor(R, c, rid),
+            lambda R, c, rid: c16.rule_k(R, c, rid),
         ],
         "slice": [
             lambda R, c, rid: c13.rule_c(R, c, rid),
@@ -93,6 +94,7 @@ def _rules():
             lambda R, c, rid: c06.rule_f(R, c, rid),
             lambda R, c, rid: _as(R, c, rid, c06.rule_c, "C06.c"),
             lambda R, c, rid: _as(R, c, rid, c02.rule_c, "C02.c"),
+            lambda R, c, rid: shared.encoder_sinks(R, c, rid),
         ],
         "map-api": [
             lambda R, c, rid: shared.map_api(R, c, rid),
@@ -106,6 +108,7 @@ def _rules():
         "merge": [
             lambda R, c, rid: c08.rule_e(R, c, rid),
             lambda R, c, rid: c08.rule_b(R, c, rid),
+            lambda R, c, rid: c08.rule_h(R, c, rid),
             lambda R, c, rid: preds.rule(R, c, rid, ["same_type"]),
             lambda R, c, rid: accessors.variant_preserving(R, c, rid),
         ],
@@ -158,11 +161,11 @@ def _rules():
 DEPENDS = {
     "C01": ["squash", "splice", "partial", "flags", "stash-deletes", "lookup", "content", "export", "liveness", "block-wire", "merge", "state-vector", "identity", "weak-wire", "update-events", "creation"],
     "C02": ["stash-deletes", "lookup", "export", "block-wire", "merge", "state-vector"],
-    "C03": ["splice", "conflict", "lookup", "content", "map-api", "text-units", "creation"],
+    "C03": ["splice", "conflict", "lookup", "content", "map-api", "text-units", "creation", "liveness"],
     "C04": ["splice", "dependency", "stash-deletes", "lookup", "content", "block-iter", "update-events", "liveness"],
-    "C05": ["conflict", "squash", "splice", "dependency", "map-api", "merge", "delete-set", "update-events"],
+    "C05": ["conflict", "squash", "splice", "dependency", "map-api", "merge", "delete-set", "update-events", "liveness"],
     "C06": ["dependency", "delete-set", "slice", "partial", "lookup", "content", "merge", "state-vector", "liveness", "block-wire"],
-    "C07": ["delete-set", "slice", "partial", "export", "liveness", "block-wire", "state-vector"],
+    "C07": ["delete-set", "slice", "partial", "export", "liveness", "block-wire", "state-vector", "creation"],
     "C08": ["slice", "delete-set", "partial", "block-wire", "state-vector", "merge"],
     "C09": ["slice", "partial", "content", "identity", "weak-wire", "block-wire"],
     "C11": ["liveness", "observers"],
